@@ -990,7 +990,15 @@ def run(ck):
     for k in ck.known:
         if k.get("signature"):
             KNOWN_SIG[k["signature"]] = (k.get("id", "K6"), k.get("what", ""))
-    ck.build_proofs()
+    # the tie to the regenerated CODE: HeaderGen.v (translate/tcode_header.py) is proved equal,
+    # function by function, to the model the theorems are about
+    ck.build_proofs(extra_targets=["theories/Sched/HeaderGenProofs.vo"])
+    try:
+        from translate import regen
+        for g, why in regen.broken_for(PID):
+            ck.notes.setdefault("translators_failed_closed", []).append([g, why])
+    except Exception:
+        pass
     rng = random.Random(ck.seed)
     impl = Impl()
     try:
